@@ -61,7 +61,7 @@ def run(tier, seed, replay):
                  MaxAdv=2, MaxPres=3, Kinds='{"good","forged"}' if not big else '{"good","forged","badtype"}', EMIT="ACTION_CONSTRAINT Emit")
     g = vlib.tlc(SPEC, "MCTcpReplay", "MCTcpReplay.cfg", small, workers=8, timeout=900, edges=True)
     graph = vlib.Graph(g)
-    paths, left = graph.cover(seed=seed, max_len=14, max_paths=None if big else 5000)
+    paths, left = graph.cover(seed=seed, max_len=14, max_paths=None if big else 3500)
     if g.violation:
         paths = paths[:0]
     behs = [graph.behaviour(p) for p in paths]
@@ -71,9 +71,9 @@ def run(tier, seed, replay):
     sim = dict(design)
     sim.update(EMIT="ACTION_CONSTRAINT Emit", Procs='{"p1","p2","p3"}', MaxAdv=5, MaxPres=7, Kinds='{"good","forged","badtype"}')
     s = vlib.tlc(SPEC, "MCTcpReplay", "MCTcpReplay.cfg", sim, workers=1, timeout=600, edges=True,
-                 simulate="num=%d" % (150 if not big else 1500), depth=22, seed=seed, edge_limit=400000)
+                 simulate="num=%d" % (600 if not big else 4000), depth=22, seed=seed, edge_limit=1500000)
     sg = vlib.Graph(s)
-    walks = sg.random_walks(300 if not big else 4000, 22, seed=seed)
+    walks = sg.random_walks(2500 if not big else 20000, 22, seed=seed)
     behs += [sg.behaviour(p) for p in walks]
     v.coverage["simulated_walks"] = len(walks)
 
